@@ -178,6 +178,22 @@ pub fn run_all(inp: &Inputs, reps: usize) -> Vec<(String, String)> {
             let gc = GeometryCollection(vec![Geometry::MultiPolygon(mp.clone()), Geometry::Polygon(pg.clone()), Geometry::Line(Line::new((0.0, 0.0), (0.0, 0.0)))]);
             rec(format!("validation_errors|collection|rep{}", rep), format!("{:?}", gc.validation_errors()));
         }
+        // large triangulation inputs (beyond any plausible 'switch strategy from here' threshold): 1500 scattered points unconstrained; 400 short
+        // disjoint constraint segments plus 8 crossing pairs through the constrained entry points (crossings are resolved by splitting)
+        {
+            let pts = irregular(1500, 77);
+            let cloud = LineString::from(pts.clone());
+            rec(format!("unconstrained_triangulation|cloud1500|rep{}", rep), format!("{:?}", TriangulateDelaunay::unconstrained_triangulation(&cloud)));
+            let mut segs: Vec<LineString<f64>> = (0..400).map(|i| { let (x, y) = ((i % 20) as f64 * 10.0, (i / 20) as f64 * 10.0); LineString::from(vec![(x + 1.0, y + 1.0 + (i % 7) as f64 * 0.37), (x + 6.0 + (i % 3) as f64 * 0.11, y + 4.0)]) }).collect();
+            for k in 0..8 {
+                let (x, y) = (300.0 + 12.0 * k as f64, 5.0 + 9.0 * k as f64);
+                segs.push(LineString::from(vec![(x, y), (x + 8.0, y + 7.3)]));
+                segs.push(LineString::from(vec![(x, y + 6.1), (x + 8.0, y + 0.4)]));
+            }
+            let mls = MultiLineString(segs);
+            rec(format!("constrained_outer_triangulation|segments416|rep{}", rep), format!("{:?}", TriangulateDelaunay::constrained_outer_triangulation(&mls, DelaunayTriangulationConfig::default())));
+            rec(format!("constrained_triangulation|grid-of-squares|rep{}", rep), format!("{:?}", TriangulateDelaunay::constrained_triangulation(&MultiPolygon((0..100).map(|i| sq((i % 10) as f64 * 3.0, (i / 10) as f64 * 3.0, 2.0 + (i % 4) as f64 * 0.2)).collect::<Vec<_>>()), DelaunayTriangulationConfig::default())));
+        }
         // a prepared outlier detector queried with a sequence of k values: the same k on a fresh detector ("rep0") and after other k's ("rep1")
         if rep == 0 {
             for (name, pts) in &inp.points {
